@@ -393,6 +393,68 @@ func c17Cause(c *Ctx) {
 		return ok && fieldOfAddr(fa) == closeErr && o != nil && o.Name() == "Load"
 	}
 	c.Floor(R, "closeErr.Load in run", countInstr(run, ld), 1)
+	// every stream map: records the cause, closes each of its streams for shutdown with it, wakes its waiters
+	nMaps := 0
+	for _, typ := range []string{"incomingStreamsMap", "outgoingStreamsMap"} {
+		for _, f := range c.fns("", typ, "CloseWithError") {
+			nMaps++
+			name := funcName(f)
+			ce := c.fld("", typ, "closeErr")
+			okStore := false
+			for _, in := range findInstrs(f, StoresTo(ce)) {
+				if ParamV("err")(in.(*ssa.Store).Val) {
+					okStore = true
+				}
+			}
+			c.Check(okStore, R, "fan-out:"+name+" records the cause", c.P.Pos(f.Pos()), "later Open/Accept calls return the recorded cause")
+			okCfs := false
+			eachInstr(f, func(in ssa.Instruction) {
+				ci, ok := in.(ssa.CallInstruction)
+				if !ok {
+					return
+				}
+				cm := ci.Common()
+				nm := ""
+				if cm.IsInvoke() {
+					nm = cm.Method.Name()
+				} else if o := calleeObj(cm); o != nil {
+					nm = o.Name()
+				}
+				if nm != "closeForShutdown" {
+					return
+				}
+				args := cm.Args
+				if !cm.IsInvoke() && len(args) > 0 {
+					args = args[1:]
+				}
+				if len(args) == 1 && ParamV("err")(args[0]) && inCycle(in.Block()) {
+					okCfs = true
+				}
+			})
+			c.Check(okCfs, R, "fan-out:"+name+" closes every stream for shutdown with the cause", c.P.Pos(f.Pos()), "a loop over the map's streams calls closeForShutdown(err): blocked Read/Write calls return")
+			nClose := countInstr(f, func(in ssa.Instruction) bool {
+				cl, ok := in.(*ssa.Call)
+				return ok && builtinName(&cl.Call) == "close"
+			})
+			c.Check(nClose >= 1, R, "fan-out:"+name+" wakes its blocked callers", c.P.Pos(f.Pos()), "the accept channel / every queued open waiter is closed")
+		}
+	}
+	c.Floor(R, "stream map CloseWithError instantiations", nMaps, 4)
+	sm := c.fn("", "streamsMap", "CloseWithError")
+	for _, fld := range []string{"outgoingBidiStreams", "outgoingUniStreams", "incomingBidiStreams", "incomingUniStreams"} {
+		fv := c.fld("", "streamsMap", fld)
+		n := 0
+		eachInstr(sm, func(in ssa.Instruction) {
+			ci, ok := in.(ssa.CallInstruction)
+			if !ok || ci.Common().IsInvoke() || len(ci.Common().Args) < 2 {
+				return
+			}
+			if o := calleeObj(ci.Common()); o != nil && o.Name() == "CloseWithError" && Load(fv)(ci.Common().Args[0]) && ParamV("err")(ci.Common().Args[1]) {
+				n++
+			}
+		})
+		c.Check(n == 1, R, "fan-out:streamsMap.CloseWithError → "+fld, c.P.Pos(sm.Pos()), "each of the four maps is closed with the cause")
+	}
 	// stream-level: closeForShutdown records the error under the mutex, then signals
 	for _, spec := range []struct{ typ, fld, sig string }{{"SendStream", "shutdownErr", "signalWrite"}, {"ReceiveStream", "closeForShutdownErr", "signalRead"}} {
 		f := c.fn("", spec.typ, "closeForShutdown")
@@ -565,6 +627,41 @@ func c17Resources(c *Ctx) {
 		})
 	}
 	c.Floor(R, "time.NewTimer sites", n, 5)
+	// routing: every close path releases or replaces the connection's routing entries, and the ID manager is closed
+	h := c.fn("", "Conn", "handleCloseError")
+	smc := c.obj("", "streamsMap", "CloseWithError")
+	rmAll := c.obj("", "connIDGenerator", "RemoveAll")
+	rwc := c.obj("", "connIDGenerator", "ReplaceWithClosed")
+	c.cut(R, "pair:every close path releases the routing entries", &Cut{Fn: h, Start: CallsTo(smc), Target: isReturn, Barrier: CallsTo(rmAll, rwc)},
+		"after the streams were closed, every exit of handleCloseError removes the connection IDs or replaces them by the closed-connection stand-in")
+	cimClose := c.obj("", "connIDManager", "Close")
+	c.cut(R, "pair:every close path closes the connection ID manager", &Cut{Fn: h, Start: CallsTo(smc), Target: isReturn, Barrier: CallsTo(cimClose), DeferBarrier: true},
+		"the active stateless reset token is removed")
+	// the stand-in is scheduled for removal
+	phm := c.fn("", "packetHandlerMap", "ReplaceWithClosed")
+	handlers := c.fld("", "Transport", "handlers")
+	okAF := false
+	eachInstr(phm, func(in ssa.Instruction) {
+		cl, ok := in.(*ssa.Call)
+		if !ok {
+			return
+		}
+		o := calleeObj(&cl.Call)
+		if o == nil || o.Pkg() == nil || o.Pkg().Path() != "time" || o.Name() != "AfterFunc" {
+			return
+		}
+		if !ParamV("expiry")(cl.Call.Args[0]) {
+			return
+		}
+		for _, g := range funcsOfValue(cl.Call.Args[1]) {
+			eachInstr(g, func(x ssa.Instruction) {
+				if dc, ok := x.(*ssa.Call); ok && builtinName(&dc.Call) == "delete" && Load(handlers)(dc.Call.Args[0]) && inCycle(x.Block()) {
+					okAF = true
+				}
+			})
+		}
+	})
+	c.Check(okAF, R, "post:closed-connection stand-in is removed after expiry", c.P.Pos(phm.Pos()), "time.AfterFunc(expiry, …) deletes every replaced ID from the routing map")
 	// dial cancellation waits for the run goroutine
 	for _, t := range []string{"Transport", "UTransport"} {
 		f := c.fn("", t, "doDial")
